@@ -104,8 +104,16 @@ func (c *Ctx) entScopes(handle func(e []byte)) *entCoverage {
 		if c.Thorough || L == 16 {
 			r = 2
 		}
+		if c.Thorough && L == 16 {
+			r = 3
+		}
 		scopes = append(scopes, scope{fmt.Sprintf("E_ham L=%d radius=%d", L, r), func(emit enum.Emit) { enum.Ham(L, r, emit) }})
 		scopes = append(scopes, scope{fmt.Sprintf("E_run L=%d", L), func(emit enum.Emit) { enum.Run(L, emit) }})
+		maxP := 12
+		if c.Thorough {
+			maxP = 16
+		}
+		scopes = append(scopes, scope{fmt.Sprintf("E_per L=%d periods 1..%d", L, maxP), func(emit enum.Emit) { enum.Per(L, maxP, emit) }})
 		if c.Thorough {
 			scopes = append(scopes, scope{fmt.Sprintf("E_blk L=%d", L), func(emit enum.Emit) { enum.Blk(L, emit) }})
 		}
